@@ -139,6 +139,7 @@ def jobs_for(tier, seed):
         # floating-point elements: -0.0 (code 2) equals +0.0 (code 0) with different bytes, NaN (code 3) equals nothing and is
         # unordered -- == is not byte identity and < is only a partial order (bytewise shortcuts would show here)
         J.append(job(order(3, alphabet=(0, 2, 3), flt=True), drv(2, 2, elem=FLT), 0, None, {'order', 'triv'}, 'order: double with -0.0 / NaN, all pairs len<=3, N=2,2, C++17'))
+        J.append(job(order(3, alphabet=(0, 2, 3), flt=True), drv(2, 0, elem=FLT, std='c++14'), 0, None, {'order', 'triv'}, 'order: double with -0.0 / NaN, all pairs len<=3, N=2 vs 0, C++14 (pre-C++20 operator set, mixed capacities)'))
         J.append(job(order(3, alphabet=(0, 2, 3), flt=True), drv(1, 3, elem=FLT, std='c++20'), 0, None, {'order', 'triv'}, 'order: double with -0.0 / NaN, all pairs len<=3, N=1 vs 3, C++20 (<=> is a partial ordering)'))
         J.append(job(order(2, alphabet=(0, 1, 2, 3), flt=True), drv(0, 0, elem=FLT, ALLOC=0, std='c++20', cxx='clang++'), 0, None, {'order', 'triv', 'stdalloc'}, 'order: double with -0.0 / NaN / 1.0, all pairs len<=2, N=0,0, std::allocator, clang C++20'))
         # fancy pointers: the ledger allocator hands out FancyPtr<T> (XOR-encoded address, no implicit conversion to T*,
@@ -148,6 +149,12 @@ def jobs_for(tier, seed):
         tr = ALL_TRAITS[(rot * 5 + 3) % 16]
         J.append(job(two(2, 3, **traits_mc(*tr)), drv(2, 3, elem=TM, ALLOC=2, std='c++14', **traits_drv(*tr)), 1, 400,
                      {'two', 'fault', 'tracked', 'traits', 'mixedN'}, 'two N=2,3 throwing-move, fancy pointers, C++14, traits %d%d%d%d' % tr))
+        # two containers of trivially copyable elements (the memcpy shortcuts of copy / move / swap between containers):
+        # the no-propagation / unequal-allocator routes always, two more trait combinations rotating
+        for tr in ((0, 0, 0, 0), ALL_TRAITS[(rot * 3 + 5) % 16], ALL_TRAITS[(rot * 7 + 10) % 16]):
+            J.append(job(two(2, 2, **traits_mc(*tr)), drv(2, 2, elem=TRIV, **traits_drv(*tr)), 0, 700,
+                         {'two', 'triv', 'traits'}, 'two N=2,2 trivially copyable, traits %d%d%d%d' % tr))
+        J.append(job(two(3, 2, IsStd=True, allocids=(0,)), drv(3, 2, elem=INT, ALLOC=0), 0, 700, {'two', 'triv', 'stdalloc', 'mixedN'}, 'two N=3,2 int, std::allocator'))
         # allocators with only one of construct / destroy; a construct() whose value-construction form leaves a mark
         # (default-init-allocator pattern): value-constructed elements must be what the allocator made them
         J.append(job(one(2), drv(2, elem=TRIV, CONSTRUCT=2), 0, 1200, {'one', 'triv'}, 'one N=2 trivially copyable, construct-only allocator marking value-construction'))
@@ -200,6 +207,14 @@ def jobs_for(tier, seed):
         for bits in (8, 16, 32):
             J.append(job(one(2, maxlen=4, maxcnt=2), drv(2, elem=TM, SIZET=bits), 1, None, {'one', 'tracked', 'narrow', 'fault'}, '%d-bit size_type, N=2, all single faults' % bits))
             J.append(job(two(2, 2, **traits_mc(0, 0, 0, 0)), drv(2, 2, elem=NT, SIZET=bits), 0, 6000, {'two', 'tracked', 'narrow'}, '%d-bit size_type, two containers' % bits))
+        for i, tr in enumerate(ALL_TRAITS):
+            na, nb = ((2, 2), (0, 2), (3, 2), (2, 3))[i % 4]
+            J.append(job(two(na, nb, **traits_mc(*tr)), drv(na, nb, elem=(TRIV, INT)[i % 2], **traits_drv(*tr)), 0, 6000,
+                         {'two', 'triv', 'traits', 'mixedN'}, 'two N=%d,%d trivially copyable, traits %d%d%d%d' % ((na, nb) + tr)))
+        J.append(job(two(3, 2, IsStd=True, allocids=(0,)), drv(3, 2, elem=INT, ALLOC=0), 0, None, {'two', 'triv', 'stdalloc', 'mixedN'}, 'two N=3,2 int, std::allocator'))
+        for (na, nb, std) in ((2, 0, 'c++11'), (0, 3, 'c++14'), (3, 1, 'c++17')):
+            J.append(job(order(3, alphabet=(0, 1, 2, 3), flt=True), drv(na, nb, elem=FLT, std=std), 0, None, {'order', 'triv'},
+                         'order: double with -0.0 / NaN / 1.0, all pairs len<=3, N=%d,%d %s (mixed capacities, pre-C++20 operators)' % (na, nb, std)))
         for N, el, cp, nt in ((2, NT, True, True), (0, TM, True, False), (3, MOT, False, False), (2, TRIV, True, True), (0, INT, True, True)):
             J.append(job(one(N, copyable=cp, nothrow=nt, maxlen=4, maxcnt=2), drv(N, elem=el, ALLOC=2), 1 if el not in (TRIV, INT) else 0, None,
                          {'one', 'fault', 'tracked'} if el not in (TRIV, INT) else {'one', 'triv'}, 'one N=%d elem=%d fancy pointers' % (N, el)))
